@@ -314,7 +314,20 @@ def check_run(proj: dict, inv: dict, evs: T.Sequence[dict], testlog: T.Optional[
     repeat = inv['repeat']
     j = inv['j']
 
-    if traceback or rc not in (0, 1):
+    # --slice i/n with 1 <= i <= n <= number of selected tests names a non-empty slice: the invocation has to be
+    # accepted.  Rejected = ended with a non-zero status without starting any test and without a test log.
+    sl = inv.get('slice')
+    slice_rejected = False
+    if sl and 1 <= sl[0] <= sl[1] <= len(sel):
+        cnt('monitor:slice_accepted')
+        cnt('cov:slice_digits_i%d_n%d' % (len(str(sl[0])), len(str(sl[1]))))
+        if rc != 0 and testlog is None and not any(e.get('ev') == 'START' for e in evs) \
+                and not any(r.get('ev') == 'h_start' for r in records):
+            slice_rejected = True
+            kind = 'usage-error' if rc == 2 else ('traceback' if traceback else 'rc%d' % rc)
+            V.append(('valid-slice-rejected:' + kind,
+                      {'slice': list(sl), 'selected': len(sel), 'rc': rc, 'out_tail': out[-400:]}))
+    if (traceback or rc not in (0, 1)) and not (slice_rejected and not traceback):
         V.append(('internal-error', {'rc': rc, 'out_tail': out[-800:]}))
 
     # leaked helpers (probe mode leak=) log C* events under their own pid; they are kept out of the interval sweeps
@@ -503,7 +516,7 @@ def check_run(proj: dict, inv: dict, evs: T.Sequence[dict], testlog: T.Optional[
     # --- D. classification
     timeouts_inconclusive = False
     if testlog is None:
-        if sel and not (inv['slice'] and inv['slice'][1] > len(sel)):
+        if sel and not (inv['slice'] and inv['slice'][1] > len(sel)) and not slice_rejected:
             V.append(('testlog-missing', {'selected': len(sel)}))
     else:
         for (tid, it), es in sorted(entries.items(), key=lambda kv: (str(kv[0][0]), kv[0][1])):
@@ -731,17 +744,34 @@ def check_run(proj: dict, inv: dict, evs: T.Sequence[dict], testlog: T.Optional[
             'selected': sel, 'max_conc': mc}
 
 
-def check_slice_group(proj: dict, invs: T.Sequence[dict], started_sets: T.Sequence[T.Sequence[str]]) -> T.List[T.Tuple[str, dict]]:
-    """--slice i/n for i = 1..n partitions the selected tests."""
+def check_slice_group(proj: dict, invs: T.Sequence[dict], started_sets: T.Sequence[T.Sequence[str]],
+                      partial: bool = False, rejected: T.Optional[T.Sequence[bool]] = None
+                      ) -> T.List[T.Tuple[str, dict]]:
+    """--slice i/n for i = 1..n partitions the selected tests.
+    partial: only some i of 1..n were run - the slices seen must be disjoint and inside the selection (the union is
+    not judged).  rejected[k]: invocation k ended non-zero without starting a test; for n <= number of selected tests
+    check_run reports that per invocation.  For n > number of selected tests the documents do not say whether the
+    slicing is refused or yields empty slices: demanded is one answer for all i - refused for every i, or accepted
+    for every i and then a partition."""
     V: T.List[T.Tuple[str, dict]] = []
     sel = set(selected(proj, invs[0]))
+    n_sl = invs[0]['slice'][1]
+    if rejected is not None and n_sl > len(sel):
+        if all(rejected):
+            return V
+        if any(rejected):
+            V.append(('slice-oversized-n:refused-for-some-i-only',
+                      {'n': n_sl, 'selected': len(sel),
+                       'refused_i': [inv['slice'][0] for inv, r in zip(invs, rejected) if r],
+                       'accepted_i': [inv['slice'][0] for inv, r in zip(invs, rejected) if not r]}))
+            return V
     seen: T.Dict[str, int] = {}
     for inv, st in zip(invs, started_sets):
         for n in set(st):
             if n in seen:
                 V.append(('slice-overlap', {'test': n, 'slices': [seen[n], inv['slice'][0]], 'n': inv['slice'][1]}))
             seen[n] = inv['slice'][0]
-    miss = sorted(sel - set(seen))
+    miss = sorted(sel - set(seen)) if not partial else []
     if miss:
         V.append(('slice-union-misses-tests', {'missing': miss, 'n': invs[0]['slice'][1], 'selected': len(sel)}))
     extra = sorted(set(seen) - sel)
